@@ -161,6 +161,15 @@ type ZText struct {
 	Words string `capnp:"text"`
 }
 
+// one list member each (fixed discriminant): the list fields of every element width are live in
+// every case, so that foreign encodings of them (upgraded composite lists) are exercised
+type ZU8vec struct{ U8vec []uint8 }
+type ZI8vec struct{ I8vec []int8 }
+type ZI32vec struct{ I32vec []int32 }
+type ZU64vec struct{ U64vec []uint64 }
+type ZDatavec struct{ Datavec [][]byte }
+type ZBoolvec struct{ Boolvec []bool }
+
 // embedding
 type ZNums struct {
 	I64 int64
@@ -528,6 +537,12 @@ func allSchemas() []*mschema {
 		air("ZF64", ZF64{}, "Z"),
 		air("ZText", ZText{}, "Z"),
 		air("EmbedZ", EmbedZ{}, "Z"),
+		air("ZU8vec", ZU8vec{}, "Z"),
+		air("ZI8vec", ZI8vec{}, "Z"),
+		air("ZI32vec", ZI32vec{}, "Z"),
+		air("ZU64vec", ZU64vec{}, "Z"),
+		air("ZDatavec", ZDatavec{}, "Z"),
+		air("ZBoolvec", ZBoolvec{}, "Z"),
 		air("Zdate", Zdate{}, "Zdate"),
 		air("PlaneBase", PlaneBase{}, "PlaneBase"),
 		air("Regression", Regression{}, "Regression"),
